@@ -11,7 +11,7 @@ ID = "C02"
 LEVEL = "exploration"
 RULE = (
     "random DAGs (1-8 targets; chains, diamonds, fans, forests, disconnected parts), random file state with ties, on "
-    "simulated Slurm (60%), SGE and LSF, plus the local backend against a recording stand-in for the pool (task ids from 0). direct lane: a backend state vector over "
+    "simulated Slurm (60%), SGE and LSF, plus the local backend against a recording stand-in for the pool (task ids counting up from the current time in ms, as gwf's own pool hands them out). direct lane: a backend state vector over "
     "unknown/submitted/running/completed/failed/cancelled (as far as the scheduler can represent it) is written into the "
     "tracked-jobs file and the simulator's job table, foreign jobs present, then one `gwf run [patterns]`. driven lane: "
     "2-3 rounds of `gwf run sel_i` with a seeded adversary starting/finishing(ok|fail)/cancelling jobs between rounds "
@@ -52,7 +52,7 @@ def gen_case(rng, idx, tier):
     names = [t["name"] for t in dag["targets"]]
     case = {"lane": lane, "sched": sched, "dag": dag, "ticks": ticks, "first_id": rng.choice([7, 100, 1000, 99990])}
     if lane == "local":
-        case["first_id"] = 0  # a fresh pool numbers its tasks from 0
+        case["first_id"] = None  # the pool numbers its tasks from the current time in ms (never 0 since b14ff27)
         case["bstate"] = {n: rng.choice(["unknown", "submitted", "running", "completed", "failed", "cancelled"]) if rng.random() < 0.6 else "unknown" for n in names}
         case["patterns"] = scenario.gen_selection(rng, names)
         return case
@@ -73,7 +73,7 @@ def setup(case, proj):
     ts = case["dag"]["targets"]
     import random as _random
 
-    sr = _random.Random(case["first_id"] + len(ts))
+    sr = _random.Random((case["first_id"] or 0) + len(ts))
     variant = [{"name": t["name"], "ins_expr": repr(gen.respell_list(sr, t["ins"], proj.root)), "outs_expr": repr(gen.respell_list(sr, t["outs"], proj.root, 0.1)), "spec": t["spec"], "route": "target"} for t in ts]
     proj.write_workflow(gen.render_workflow(variant))
     proj.write_config({"backend": case["sched"]})
@@ -119,12 +119,12 @@ def do_run(case, proj, sim, env, mts, deps, patterns, res, label):
 
 def run_local(case):
     """the same plan through the local backend: a recording stand-in for the worker pool holds the task
-    table (ids from 0), the real TrackingBackend/LocalOps client talks to it"""
+    table (ids count up from the current time in ms, like gwf's own pool), the real TrackingBackend/LocalOps client talks to it"""
     from ..recserver import RecServer
 
     res = Result()
     LOCAL = {"submitted": "SUBMITTED", "running": "RUNNING", "completed": "COMPLETED", "failed": "FAILED", "cancelled": "CANCELLED"}
-    with gen.Project() as proj, RecServer(first_id=0) as srv:
+    with gen.Project() as proj, RecServer() as srv:
         mts, deps = setup(case, proj)
         proj.write_config({"backend": "local", "backend.local.port": srv.port, "backend.local.host": "127.0.0.1"})
         tracked = {}
